@@ -339,6 +339,25 @@ def gen_jwe_input(w: World, rng: Rng):
     return entry, tok, kname, note, sender
 
 
+def gen_random_input(rng: Rng):
+    """no structure at all: random octets, random text, dots in odd numbers, huge segments"""
+    r = rng.random()
+    if r < 0.25:
+        tok = rng.bytes_(rng.randrange(0, 200))
+    elif r < 0.5:
+        tok = "".join(rng.pick(b64.ALPHABET + "...==+/ \n{}\"") for _ in range(rng.randrange(0, 120)))
+    elif r < 0.75:
+        n = rng.pick([0, 1, 2, 3, 4, 5, 6, 9])
+        tok = ".".join(b64.enc(rng.bytes_(rng.randrange(0, 24))) for _ in range(n))
+    else:
+        hdr = b64.enc(rjws.compact_json(rng.pick([{"alg": "HS256"}, {"alg": "dir", "enc": "A128GCM"}, {"alg": "none"}, {"alg": "A128KW", "enc": "A128GCM", "zip": "DEF"}])))
+        tok = ".".join([hdr] + [b64.enc(rng.bytes_(rng.pick([0, 1, 7, 12, 16, 40, 5000]))) for _ in range(rng.pick([2, 4]))])
+    entry = rng.pick([e for e in ENTRIES if "json" not in e])
+    if isinstance(tok, bytes) and entry == "jws.extract+validate":
+        pass
+    return entry, tok, rng.pick(["oct", "oct16", "rsa", "ec", "ed", "x"]), "random:unstructured input"
+
+
 def relabel(tok, member, value, where="protected"):
     if isinstance(tok, str):
         parts = tok.split(".")
@@ -498,7 +517,9 @@ def run(rng: Rng, tier: str, index: int) -> RunResult:
         g = irng.sub(i)
         sender = None
         try:
-            if g.chance(0.5):
+            if g.chance(0.06):
+                entry, tok, kname, note = gen_random_input(g)
+            elif g.chance(0.5):
                 entry, tok, kname, note = gen_jws_input(w, g)
             else:
                 entry, tok, kname, note, snd = gen_jwe_input(w, g)
